@@ -17,7 +17,6 @@ package message
 import (
 	"bytes"
 	"fmt"
-	"sync/atomic"
 )
 
 // SubscribeMessage is a SUBSCRIBE packet, sent from the Client to the Server to create one or more
@@ -78,6 +77,7 @@ func (m *SubscribeMessage) AddTopic(topic []byte, qos byte) error {
 
 	if found {
 		m.qos[i] = qos
+		m.dirty = true
 		return nil
 	}
 
@@ -163,7 +163,14 @@ func (m *SubscribeMessage) Decode(src []byte) (int, error) {
 		return total, err
 	}
 
+	// Nothing behind the end of this packet belongs to it.
+	src = src[:total+int(m.remlen)]
+
 	//this.packetId = binary.BigEndian.Uint16(src[total:])
+	if m.remlen < 2 {
+		return total, fmt.Errorf("subscribe/Decode: Insufficient remaining length. Expecting at least %d, got %d", 2, m.remlen)
+	}
+
 	m.packetID = src[total : total+2]
 	total += 2
 
@@ -173,6 +180,10 @@ func (m *SubscribeMessage) Decode(src []byte) (int, error) {
 		total += n
 		if err != nil {
 			return total, err
+		}
+
+		if len(src[total:]) < 1 {
+			return total, fmt.Errorf("subscribe/Decode: Missing QoS byte for topic %d", len(m.topics))
 		}
 
 		m.topics = append(m.topics, t)
@@ -222,7 +233,7 @@ func (m *SubscribeMessage) Encode(dst []byte) (int, error) {
 	}
 
 	if m.PacketID() == 0 {
-		m.SetPacketID(uint16(atomic.AddUint64(&gPacketID, 1) & 0xffff))
+		m.SetPacketID(nextPacketID())
 		//this.packetId = uint16(atomic.AddUint64(&gPacketId, 1) & 0xffff)
 	}
 
